@@ -307,6 +307,28 @@ def p_pow(a, e):
             rest = _mk(d)
             fac = frozenset([((frozenset((x, ex * e) for x, ex in common.items()), ()), ck)])
             return p_had(fac, p_pow(rest, e))
+    if len(a) > 1 and all(len(chain) <= 1 for (s, chain), k in a) and all(chain for (s, chain), k in a):
+        # clearing denominators elementwise: (v + c / v) ** e = v ** -e * (v * v + c) ** e for a vector v that
+        # every term carries (its most negative power is taken out)
+        per = [(dict(chain[0].kids[0]) if chain[0].op == "had" else {chain[0]: ONE}) for (s, chain), k in a]
+        common = None
+        for dct in per:
+            common = dict(dct) if common is None else {x: min(ex, common[x]) for x, ex in dct.items() if x in common}
+        common = {x: ex for x, ex in (common or {}).items() if ex < 0}
+        if common:
+            d = {}
+            for ((s, chain), k), dct in zip(a, per):
+                dd = dict(dct)
+                for x, ex in common.items():
+                    dd[x] = dd[x] - ex
+                fs = frozenset((f, ex) for f, ex in dd.items() if ex != 0)
+                ch = () if not fs else ((next(iter(fs))[0],) if (len(fs) == 1 and next(iter(fs))[1] == 1) else (A("had", fs),))
+                d[(s, ch)] = d.get((s, ch), 0) + k
+            rest = _mk(d)
+            cf = frozenset((x, ex * e) for x, ex in common.items())
+            catom = next(iter(cf))[0] if (len(cf) == 1 and next(iter(cf))[1] == 1) else A("had", cf)
+            if all(ch for (s_, ch), k_ in rest):
+                return p_had(frozenset([((EMPTY_S, (catom,)), ONE)]), p_pow(rest, e))
     scalar = all(not chain for (s, chain), k in a)
     atom = A("poly", a)
     if scalar:
